@@ -537,7 +537,16 @@ class Engine:
         if ka == "list" and kb in ("bag", "seq") and isinstance(op, ast.Add):
             return self.binop(op, coerce(a, b.t), b, st)
         if ka == "seq" and kb in ("seq", "list") and isinstance(op, ast.Add):
-            return V(a.t, z3.Concat(a.x, coerce(b, a.t).x))
+            res = z3.Concat(a.x, coerce(b, a.t).x)
+            if kb == "list" and not self.spec and getattr(self, "qdepth", 0) == 0:
+                # facts that are valid in the theory of sequences, stated explicitly because the solvers do not derive them under quantifiers:
+                # (xs + [e1..ek]) has length len(xs) + k, agrees with xs below len(xs), and holds e_i at len(xs) + i
+                j = z3.Int(fresh_name("j"))
+                st.assume(z3.Length(res) == z3.Length(a.x) + len(b.x))
+                st.assume(z3.ForAll([j], z3.Implies(z3.And(0 <= j, j < z3.Length(a.x)), res[j] == a.x[j])))
+                for i_, e_ in enumerate(b.x):
+                    st.assume(res[z3.Length(a.x) + i_] == to_term(coerce(e_, a.t[1])))
+            return V(a.t, res)
         raise OutOfSubset(f"binary {type(op).__name__} on {a.t},{b.t}")
 
     def ev_JoinedStr(self, node, st):
